@@ -130,7 +130,6 @@ func TestC07_EncoderConforms(t *testing.T) {
 	})
 }
 
-
 // checkVanishedEncoding: a copy of the sketch is reweighted until every weight has underflowed to exactly 0 (its
 // stores may keep entries, pages or array slots of weight 0); its encoding must still be a well-formed stream that
 // every decoder accepts and that carries no weight.
